@@ -297,6 +297,11 @@ impl NetCore {
 
     fn deliver_due(&mut self) {
         let now = Instant::now();
+        if kernel::capped() {
+            // event or wall-clock cap hit: the run is being wound down, nothing is delivered any more
+            self.q.clear();
+            return;
+        }
         loop {
             let Some((&(at, seq), _)) = self.q.first_key_value() else { break };
             if at > now {
